@@ -366,6 +366,10 @@ func (self *linkedPairs) ToSlice(con []Pair) {
 func (self *linkedPairs) ToMap(con map[string]Node) {
 	for i := 0; i < self.size; i++ {
 		n := self.At(i)
+		if !n.Value.Exists() {
+			// unset pair
+			continue
+		}
 		con[n.Key] = n.Value
 	}
 }
